@@ -59,7 +59,16 @@ def perm_of(k):
 def main():
     req = json.load(sys.stdin)
     out = []
+    scoped = req.get("scoped")
     for i, c in enumerate(req["cases"]):
+        if scoped is not None:
+            # C14: a scoped override (of another setting, or of the default schema itself) on top of the environment
+            from sqllineage.config import SQLLineageConfig
+
+            with SQLLineageConfig(**scoped):
+                d = observe.dump(c["sql"], c.get("dialect", "ansi"), metadata=c.get("metadata"))
+            out.append({"dump": d, "order": None})
+            continue
         d = observe.dump(c["sql"], c.get("dialect", "ansi"), metadata=c.get("metadata"))
         for k in ("C", "Cfull", "Cnosq"):
             if k in d:
